@@ -169,6 +169,10 @@ var UserFns = []userFn{
 	{"f_s2i", KString, 1, KInt, StrToInt},
 	{"f_f2b", KFloat, 1, KBool, FloatToBool},
 	{"f_b2f", KBool, 1, KFloat, BoolToFloat},
+	{"f_i2f", KInt, 1, KFloat, IntToFloat},
+	{"f_f2i", KFloat, 1, KInt, FloatToInt},
+	{"f_i2b", KInt, 1, KBool, IntToBool},
+	{"f_s2f", KString, 1, KFloat, StrToFloat},
 	{"abs", KInt, 1, KInt, IntToInt},         // shadows the built-in
 	{"sub2", KInt, 2, KInt, Int2},            // non-commutative
 	{"sub2", KFloat, 2, KFloat, Float2},      // same name, other type
@@ -319,6 +323,14 @@ func userEval(f userFn) func(a, b Val) Val {
 			return Val{K: KFloat, F: fn(a.B)}
 		case func(int) int:
 			return Val{K: KInt, I: fn(a.I)}
+		case func(int) float64:
+			return Val{K: KFloat, F: fn(a.I)}
+		case func(float64) int:
+			return Val{K: KInt, I: fn(a.F)}
+		case func(int) bool:
+			return Val{K: KBool, B: fn(a.I)}
+		case func(*string) float64:
+			return Val{K: KFloat, F: fn(a.S)}
 		case func(int, int) int:
 			return Val{K: KInt, I: fn(a.I, b.I)}
 		case func(float64, float64) float64:
